@@ -4,7 +4,7 @@
    one in force in both directions.  A variant that keeps an already declared reverse ratio (dict.setdefault)
    is refuted on a two-declaration history.  All over Q, for every table and every history. *)
 From stdpp Require Import gmap.
-From Coq Require Import ZArith QArith Qfield Lia List Bool.
+From Coq Require Import ZArith QArith Qabs Qfield Lia List Bool.
 From Measured Require Import Model.FMap Model.Units Model.Quantity Model.Value Model.Convert Model.Declare Proofs.InternFacts.
 Import ListNotations.
 Local Open Scope Q_scope.
@@ -229,4 +229,65 @@ Theorem translated_pair_roundtrip o scale degree z m :
 Proof.
   intros Hsd. unfold translate_offsets. exists (- z), z. rewrite !tget_tset, !keq_refl. cbn [andb].
   rewrite Hsd. cbn [andb]. split; [reflexivity|]. split; [reflexivity|ring].
+Qed.
+
+(* ---------- the executable checks of Model/Declare.v mean what they say ---------- *)
+Lemma rget_in row d r : rget row d = Some r -> exists b, In (b, r) row /\ ukey_eqb b d = true.
+Proof.
+  induction row as [|[k y] row IH]; cbn [rget]; [discriminate|].
+  destruct (ukey_eqb k d) eqn:E.
+  - intros [= <-]. exists k. split; [left; reflexivity|exact E].
+  - intros Hr. destruct (IH Hr) as (b & Hin & Hb). exists b. split; [right; exact Hin|exact Hb].
+Qed.
+
+Lemma trow_in t c : trow t c = [] \/ exists a, In (a, trow t c) t /\ ukey_eqb a c = true.
+Proof.
+  induction t as [|[k r] t IH]; cbn [trow]; [left; reflexivity|].
+  destruct (ukey_eqb k c) eqn:E.
+  - right. exists k. split; [left; reflexivity|exact E].
+  - destruct IH as [IH|(a & Hin & Ha)]; [left; exact IH|]. right. exists a. split; [right; exact Hin|exact Ha].
+Qed.
+
+Lemma rget_keq row a c : ukey_eqb a c = true -> rget row a = rget row c.
+Proof.
+  intros Hac. induction row as [|[k y] row IH]; cbn [rget]; [reflexivity|].
+  rewrite (keq_right a c k Hac), IH. reflexivity.
+Qed.
+
+Lemma trow_keq t b d : ukey_eqb b d = true -> trow t b = trow t d.
+Proof.
+  intros Hbd. induction t as [|[k r] t IH]; cbn [trow]; [reflexivity|].
+  rewrite (keq_right b d k Hbd), IH. reflexivity.
+Qed.
+
+Lemma tget_keq t a b c d : ukey_eqb a c = true -> ukey_eqb b d = true -> tget t b a = tget t d c.
+Proof. intros Hac Hbd. unfold tget. rewrite (trow_keq t b d Hbd). apply rget_keq. exact Hac. Qed.
+
+Definition ReciprocalWithin (eps : Q) (t : table) : Prop :=
+  forall c d r, tget t c d = Some r -> exists r', tget t d c = Some r' /\ Qabs (r * r' - 1) <= eps.
+Definition OppositeExact (o : table) : Prop :=
+  forall c d z, tget o c d = Some z -> exists z', tget o d c = Some z' /\ z + z' == 0.
+
+Theorem reciprocalb_sound eps t : reciprocalb eps t = true -> ReciprocalWithin eps t.
+Proof.
+  unfold reciprocalb. intros Hb c d r Hr. unfold tget in Hr.
+  destruct (trow_in t c) as [E|(a & Hin & Hac)]; [rewrite E in Hr; discriminate|].
+  destruct (rget_in _ _ _ Hr) as (b & Hinb & Hbd).
+  rewrite forallb_forall in Hb. specialize (Hb _ Hin). cbn [fst snd] in Hb.
+  rewrite forallb_forall in Hb. specialize (Hb _ Hinb). cbn [fst snd] in Hb.
+  rewrite (tget_keq t a b c d Hac Hbd) in Hb.
+  destruct (tget t d c) as [r'|]; [|discriminate].
+  exists r'. split; [reflexivity|]. apply Qle_bool_iff. exact Hb.
+Qed.
+
+Theorem oppositeb_sound o : oppositeb o = true -> OppositeExact o.
+Proof.
+  unfold oppositeb. intros Hb c d z Hz. unfold tget in Hz.
+  destruct (trow_in o c) as [E|(a & Hin & Hac)]; [rewrite E in Hz; discriminate|].
+  destruct (rget_in _ _ _ Hz) as (b & Hinb & Hbd).
+  rewrite forallb_forall in Hb. specialize (Hb _ Hin). cbn [fst snd] in Hb.
+  rewrite forallb_forall in Hb. specialize (Hb _ Hinb). cbn [fst snd] in Hb.
+  rewrite (tget_keq o a b c d Hac Hbd) in Hb.
+  destruct (tget o d c) as [z'|]; [|discriminate].
+  exists z'. split; [reflexivity|]. apply Qeq_bool_iff. exact Hb.
 Qed.
